@@ -8,6 +8,7 @@ import (
 	"sort"
 	"strconv"
 	"strings"
+	"sync"
 )
 
 type SortKind int
@@ -39,9 +40,12 @@ var (
 )
 
 var arraySorts = map[string]*Sort{}
+var sortMu sync.Mutex
 
 func ArrayS(idx, elem *Sort) *Sort {
 	k := idx.String() + "->" + elem.String()
+	sortMu.Lock()
+	defer sortMu.Unlock()
 	if s, ok := arraySorts[k]; ok {
 		return s
 	}
@@ -58,6 +62,8 @@ func BVS(w int) *Sort {
 		return BV64S
 	}
 	k := fmt.Sprintf("bv%d", w)
+	sortMu.Lock()
+	defer sortMu.Unlock()
 	if s, ok := arraySorts[k]; ok {
 		return s
 	}
